@@ -77,6 +77,9 @@ func worker(args []string) {
 		}
 	}
 	ctx := core.NewCtx(prop, tier, shard, n, time.Now().Add(budget))
+	if rs := os.Getenv("VERIF_RESUME"); rs != "" {
+		ctx.Resume, _ = strconv.ParseInt(rs, 10, 64)
+	}
 	func() {
 		defer func() {
 			if r := recover(); r != nil {
@@ -114,9 +117,9 @@ func run(prop, tier string) int {
 		}
 	}
 	self, _ := os.Executable()
-	results := make([]*core.Result, n)
-	deaths := make([]string, n)
-	hangs := make([]string, n)
+	var results []*core.Result
+	var deaths, hangs []string
+	var mu sync.Mutex
 	annDir := filepath.Join(verifDir(), "build", "ann")
 	_ = os.MkdirAll(annDir, 0o755)
 	budget := ck.QuickBudget
@@ -134,39 +137,80 @@ func run(prop, tier string) int {
 		wg.Add(1)
 		go func(i int) {
 			defer wg.Done()
-			cmd := exec.Command(self, "worker", prop, tier, strconv.Itoa(i), strconv.Itoa(n))
 			annPath := filepath.Join(annDir, fmt.Sprintf("%s.%d", prop, i))
-			_ = core.NewAnnounceFile(annPath)
-			cmd.Env = append(os.Environ(), "GOMAXPROCS="+strconv.Itoa(max(1, ck.ProcsPerWorker)), "VERIF_ANNOUNCE="+annPath)
-			var so, se bytes.Buffer
-			cmd.Stdout, cmd.Stderr = &so, &se
-			err := cmd.Start()
-			if err == nil {
-				done := make(chan error, 1)
-				go func() { done <- cmd.Wait() }()
-				select {
-				case err = <-done:
-				case <-time.After(limit):
-					// the worker is stuck in one case (its own deadline is only checked between cases): the announced case hangs
-					_ = cmd.Process.Kill()
-					<-done
-					hangs[i] = core.ReadAnnounce(annPath)
-					if hangs[i] == "" {
-						hangs[i] = "(no case announced)"
+			resume := int64(0)
+			deadline := time.Now().Add(limit)
+			for attempt := 0; attempt < 40; attempt++ {
+				cmd := exec.Command(self, "worker", prop, tier, strconv.Itoa(i), strconv.Itoa(n))
+				_ = core.NewAnnounceFile(annPath)
+				cmd.Env = append(os.Environ(), "GOMAXPROCS="+strconv.Itoa(max(1, ck.ProcsPerWorker)), "VERIF_ANNOUNCE="+annPath, "VERIF_RESUME="+strconv.FormatInt(resume, 10))
+				var so, se bytes.Buffer
+				cmd.Stdout, cmd.Stderr = &so, &se
+				err := cmd.Start()
+				hung := false
+				if err == nil {
+					done := make(chan error, 1)
+					go func() { done <- cmd.Wait() }()
+					lastCtr, lastMove := int64(-1), time.Now()
+				WAIT:
+					for {
+						select {
+						case err = <-done:
+							break WAIT
+						case <-time.After(2 * time.Second):
+							ctr, _ := core.ReadAnnounceCase(annPath)
+							if ctr != lastCtr {
+								lastCtr, lastMove = ctr, time.Now()
+							}
+							stalled := ck.Resumable && ctr > 0 && time.Since(lastMove) > ck.StallLimit
+							if stalled || time.Now().After(deadline) {
+								// stuck in one case (the worker's own deadline is only checked between cases): the announced case hangs
+								_ = cmd.Process.Kill()
+								<-done
+								hung = true
+								break WAIT
+							}
+						}
+					}
+				}
+				ctr, announced := core.ReadAnnounceCase(annPath)
+				if hung {
+					if announced == "" {
+						announced = "(no case announced)"
+					}
+					mu.Lock()
+					hangs = append(hangs, announced)
+					mu.Unlock()
+					if ck.Resumable && ctr > resume && time.Now().Before(deadline) {
+						resume = ctr
+						continue
 					}
 					return
 				}
-			}
-			var r core.Result
-			if jerr := json.Unmarshal(so.Bytes(), &r); jerr != nil || err != nil {
-				tail := se.String()
-				if len(tail) > 3000 {
-					tail = tail[:1500] + "\n...\n" + tail[len(tail)-1500:]
+				var r core.Result
+				if jerr := json.Unmarshal(so.Bytes(), &r); jerr != nil || err != nil {
+					tail := se.String()
+					if len(tail) > 3000 {
+						tail = tail[:1500] + "\n...\n" + tail[len(tail)-1500:]
+					}
+					d := fmt.Sprintf("worker %d/%d died: %v\n%s", i, n, err, tail)
+					if announced != "" {
+						d += "\nannounced case: " + announced
+					}
+					mu.Lock()
+					deaths = append(deaths, d)
+					mu.Unlock()
+					if ck.Resumable && ctr > resume && time.Now().Before(deadline) && (strings.Contains(d, "fatal error") || strings.Contains(d, "goroutine stack exceeds")) {
+						resume = ctr
+						continue
+					}
+					return
 				}
-				deaths[i] = fmt.Sprintf("worker %d/%d died: %v\n%s", i, n, err, tail)
+				mu.Lock()
+				results = append(results, &r)
+				mu.Unlock()
 				return
 			}
-			results[i] = &r
 		}(i)
 	}
 	wg.Wait()
@@ -177,28 +221,25 @@ func run(prop, tier string) int {
 			total.Merge(r)
 		}
 	}
-	for i, h := range hangs {
-		if h != "" {
-			total.Exhaustive = false
-			total.Caps = append(total.Caps, fmt.Sprintf("worker %d killed after %s: its shard is incomplete", i, limit))
-			total.Violations = append(total.Violations, core.Violation{Property: prop, Kind: "hang",
-				Attrs: map[string]string{"class": "no-return"}, Detail: map[string]interface{}{"announced_case": h, "limit": limit.String()}})
-			total.ViolCount["hang|class=no-return"]++
-		}
+	for _, h := range hangs {
+		total.Exhaustive = false
+		total.Violations = append(total.Violations, core.Violation{Property: prop, Kind: "hang",
+			Attrs: map[string]string{"class": "no-return"}, Detail: map[string]interface{}{"announced_case": h}})
+		total.ViolCount["hang|class=no-return"]++
 	}
-	for i, d := range deaths {
-		if d != "" {
-			if a := core.ReadAnnounce(filepath.Join(annDir, fmt.Sprintf("%s.%d", prop, i))); a != "" {
-				d += "\nannounced case: " + a
+	for _, d := range deaths {
+		// A worker that dies took the library down with it (Go fatal error) or the harness is broken.
+		if strings.Contains(d, "goroutine stack exceeds") || strings.Contains(d, "fatal error") {
+			cls := "fatal"
+			if strings.Contains(d, "stack exceeds") || strings.Contains(d, "stack overflow") {
+				cls = "stack-overflow"
 			}
-			// A worker that dies took the library down with it (Go fatal error) or the harness is broken.
-			if strings.Contains(d, "goroutine stack exceeds") || strings.Contains(d, "fatal error") {
-				total.Violations = append(total.Violations, core.Violation{Property: prop, Kind: "worker-death",
-					Attrs: map[string]string{"class": "fatal"}, Detail: d})
-				total.ViolCount["worker-death|class=fatal"]++
-			} else {
-				total.EngineErr = d
-			}
+			total.Violations = append(total.Violations, core.Violation{Property: prop, Kind: "worker-death",
+				Attrs: map[string]string{"class": cls}, Detail: d})
+			total.ViolCount["worker-death|class="+cls]++
+			total.Exhaustive = ck.Resumable && total.Exhaustive
+		} else {
+			total.EngineErr = d
 		}
 	}
 	if total.EngineErr != "" {
